@@ -100,6 +100,12 @@ def run(prop, tier, seed):
                     ("3", "CVSS:3.1/AV:N/AC:L/PR:N/UI:N/S:U/C:N/I:N/A:N/E:U"), ("3", "CVSS:3.0/AV:N/AC:L/PR:N/UI:N/S:U/C:N/I:N/A:N/MC:N"),
                     ("3", "CVSS:3.1/AV:N/AC:L/PR:N/UI:N/S:U/C:H/I:H/A:H/MC:N/MI:N/MA:N"), ("3", "CVSS:3.1/AV:N/AC:L/PR:N/UI:N/S:U/C:H/I:H/A:H/E:H/RL:U/RC:C/CR:M"),
                     ("4", "CVSS:4.0/AV:N/AC:L/AT:N/PR:N/UI:N/VC:N/VI:N/VA:N/SC:N/SI:N/SA:N/E:U/CR:L")]
+        # one vector per distinct score value the library produces on the score tables (per version and slot)
+        import tables
+        reps, nrec = tables.score_representatives(tables.v2_tables("quick", seed) + tables.v3_tables("quick", seed, rnd.choice([0, 1]))[:3]
+                                                  + tables.v4_tables("quick", seed)[2:3], work, seed)
+        strings += reps
+        c.extra["score_value_representatives"] = len(reps)
         for ver in "2":      # every v2 base vector with zero impact x an optional metric: 0.0 scores in optional groups
             for _ in range(60 if not big else 600):
                 g = corpus.random_assignment(rnd, ver, p_opt=0.5)
